@@ -55,6 +55,12 @@ CHECKS = {
          "text": "partial: 'instantiates' is decided by compiling one harness TU per configuration (33 TUs: dimensions 1-4 x periodic x executors x tree kinds x scalar types); the guarantees are theorems generic in D and grouping and every compiled configuration runs the exactly-once correspondence"},
  "C20": {"category": "proof", "design_ref": "DESIGN.md 6 C20", "technique": "Lean theorems over an arbitrary field + bit-exact Float/Float32 run of the same definitions + 60-digit reference", "note": BASE + "; Mathlib (ring, field_simp) for the algebra; scalar path only",
          "text": "over any field with any function in place of sqrt: the one-sided routine adds exactly the sum of pair terms, the mutual routine's targets equal the one-sided result and each source receives the exact negation; with rs(1/r^2)=1/r the terms are q/r and q_i q_j dx/r^3; the same definitions run at Float/Float32 reproduce the library bit for bit; results within rounding of a 60-digit evaluation"},
+ "C04": {"category": "other", "design_ref": "DESIGN.md 6 C04", "technique": "proved conventions/additivity/reference law + numeric probe of the real kernel against an independent direct sum",
+         "note": "numerical test, thresholds empirical (about 10x the worst error on the pinned tree); truncation error of the rotation kernel is not formalised",
+         "text": "partial: what can be proved is proved elsewhere (argument conventions C02, grouping/executor invariance for additive kernels C08/C03, the pairwise law of the reference C20); the truncation-error clause is tested: orders 4/8/12, float/double, heights 1..6, shifted/scaled boxes, points on cell faces/centres/axes, 3 groupings incl. OpenMP(mock) per case, linear charge splitting, finiteness, error decay with the order"},
+ "C05": {"category": "other", "design_ref": "DESIGN.md 6 C05", "technique": "proved conventions/additivity/reference law + numeric probe of the real kernel against an independent direct sum",
+         "note": "numerical test, thresholds empirical; interpolation error of the uniform kernel is not formalised",
+         "text": "partial: as C04 for the uniform kernel, orders 3/5/7, float/double; batches of children are exercised through bs=1 / one-group-per-parent groupings that split sibling sets across M2M calls"},
 }
 REASONS = {
  "C04": "not claimed yet: numeric probe of the rotation kernel not built in this commit",
